@@ -148,6 +148,8 @@ def rnd_history(rng, maxops, fmt="U"):
             ops.append(("G", k))
         elif r < 0.95:
             ops.append(("H", k))
+        elif r < 0.975:
+            ops.append(("Z",))       # serialize and discard the image; the object lives on (memoised images must be dropped by every edit)
         else:
             ops.append(("R",))       # save and load again (serialize -> from_bytes), then go on editing the LOADED archive
     return ops
@@ -165,7 +167,7 @@ def parse_hist(line):
     t = line.split()
     fmt, endian, ops, i = t[1], t[2], [], 3
     while i < len(t):
-        n = 3 if t[i] == "S" else (1 if t[i] == "R" else 2)
+        n = 3 if t[i] == "S" else (1 if t[i] in ("R", "Z") else 2)
         ops.append(tuple([t[i]] + [list(unL(x)) for x in t[i + 1:i + n]]))
         i += n
     return fmt, endian, ops
@@ -292,7 +294,11 @@ class C06(PropertyCheck):
                         # the dirty flag was clear; only set_message sets it)
                         [("S", [97], [1]), ("S", [98], [2]), ("R",), ("D", [97])],
                         [("T", [84]), ("S", [97], [1]), ("R",), ("T", [85, 86])],
-                        [("S", [97], [1]), ("R",), ("D", [97]), ("R",), ("S", [98], [2]), ("R",), ("T", [87]), ("D", [98])]):
+                        [("S", [97], [1]), ("R",), ("D", [97]), ("R",), ("S", [98], [2]), ("R",), ("T", [87]), ("D", [98])],
+                        # serialize in mid-history on the same object (image discarded): every later edit must show in the final image
+                        [("S", [97], [1]), ("S", [98], [2]), ("Z",), ("D", [97])],
+                        [("S", [97], [1]), ("Z",), ("T", [85, 86])],
+                        [("S", [97], [1]), ("Z",), ("S", [97], [2]), ("Z",), ("D", [97]), ("Z",), ("S", [98], [3]), ("Z",), ("T", [87]), ("Z",), ("D", [98])]):
                 cases.append(Case(render_hist(f, e, ops), "history"))
         for _ in range(500 if quick else 8000):
             f = "U" if rng.random() < 0.7 else "S"
